@@ -26,14 +26,18 @@ Lemmas/StreamChunk: `ustep` with the ring buffer erased, every `ustep` step IS a
   64/64 cases, bytes differ in 6/64 with the generated data).
 
 Theorem `chunking_irrelevant`: ANY two ways of cutting the same data into PROCESS chunks in front of
-the same kind of final request (its own chunk empty in neither, or a PROCESS), all requests driven
-under arbitrary output schedules: equal states up to the ring buffer, equal bytes.  The tree violates
+the same kind of final request, all requests driven under arbitrary output schedules: equal states up
+to the ring buffer, equal bytes — PROVIDED, for each history, the final request is a PROCESS, or has a
+byte of its own, or the PROCESS data do not end on an input-block boundary (`NotBoundary`: the
+cumulative count of unprocessed bytes is not a multiple of the block size).  That is exactly the
+complement of the counter-example: the characterisation is sharp.  The tree violates
 the chunking clause of C05 exactly where the proviso bites (known finding
 `stream:c05:in-chunking:block-multiple`).  Its one-step form is
 `process_chunking_irrelevant`: PROCESS c1 followed by a request (op2, c2), each driven to
 completion under ANY output schedule, and the single request (op2, c1 ++ c2) driven under any
 schedule, from abstractly equal starts, end with equal core states modulo the ring buffer
-(`er (core _)`) and equal bytes produced — PROVIDED op2 is PROCESS or c2 is not empty (`hsafe`).
+(`er (core _)`) and equal bytes produced — PROVIDED op2 is PROCESS, or c2 is not empty, or the end of
+c1 is not an input-block boundary (`hsafe`).
 Since the oracle is asked with (invocation number, request) and the invocation number is part of
 the compared state (`nEnc`), equal final states mean equally many invocations; the bytes are equal
 with no hypothesis on the oracle.
@@ -78,6 +82,13 @@ theorem vmerge_end {o : Oracle} {op2 : Nat} {M C e : Abs} {d : Bool}
 
 theorem erA_absR (s : St) (rem del : Bytes) : erA (absR s rem del) = ⟨er (core s), del ++ s.pending, rem, rem.length⟩ := rfl
 
+theorem vpos_of_inv {s : St} (hI : Inv s) : VPos (er (core s)) := ⟨hI.fl_le, hI.lp_le, hI.blk⟩
+
+theorem inv_ensure {s : St} (h : IsFresh s ∨ Inv s) : Inv (ensureInitialized s) := by
+  rcases h with h | h
+  · exact (inv_fresh h).1
+  · rw [ensureInitialized_id h.init]; exact h
+
 /-- **process_chunking_irrelevant**: moving bytes between a PROCESS call and the request behind it
 does not change what the encoder produces — if that request is a PROCESS or keeps a byte of its own.
 Run A: PROCESS `c1` (driven to completion under schedule 1, all input consumed), then `(op2, c2)`
@@ -85,7 +96,7 @@ Run A: PROCESS `c1` (driven to completion under schedule 1, all input consumed),
 start of run A.  Both end with the same core state up to the ring buffer and the same bytes. -/
 theorem process_chunking_irrelevant {o : Oracle} {f1 f2 f3 op2 : Nat} {sched1 sched2 sched3 : List SchedStep}
     {s s1 s2 t t3 : St} {c1 c2 del del1 del2 delt del3 : Bytes} {d2 d3 : Bool}
-    (hop2 : op2 ≤ 2) (hsafe : op2 = 0 ∨ c2 ≠ [])
+    (hop2 : op2 ≤ 2) (hsafe : op2 = 0 ∨ c2 ≠ [] ∨ NotBoundary s c1)
     (hG : VGood (absR s (c1 ++ c2) del)) (hproc : s.streamState = .processing)
     -- run A
     (hB1 : Bnd 0 s c1)
@@ -107,9 +118,14 @@ theorem process_chunking_irrelevant {o : Oracle} {f1 f2 f3 op2 : Nat} {sched1 sc
   obtain ⟨⟨n1, p1⟩, g1⟩ := rpath_er r1 hG1
   have t1 := final_er g1 rfl e1
   rw [erA_absR] at p1
+  have hIs : Inv s := by
+    rcases hB1.inv with h | h
+    · have : s.isInitialized = true := hG.init
+      rw [isFreshInit h] at this; cases this
+    · exact h
   have hS : VStart (er (core s)) (c1 ++ c2) :=
-    ⟨⟨hG.init, hG.nf, hG.ncat, hG.hint, hG.bs, hG.nowrap, rfl⟩, hproc⟩
-  have hm := vmerge (o := o) (op2 := op2) (c2 := c2) hsafe n1 (er (core s)) (del ++ s.pending) c1 _ p1 t1 rfl hS
+    ⟨⟨hG.init, hG.nf, hG.ncat, hG.hint, hG.bs, hG.nowrap, rfl⟩, hproc, vpos_of_inv hIs⟩
+  have hm := vmerge (o := o) (op2 := op2) (c2 := c2) n1 (er (core s)) (del ++ s.pending) c1 _ p1 t1 rfl hS hsafe
   -- phase 2 of run A
   have hG2 : VGood (absR s1 c2 del1) :=
     ⟨g1.init, g1.nf, g1.ncat, g1.hint, g1.bs, hB2.wrap, rfl⟩
@@ -169,7 +185,7 @@ theorem vrun_det {o : Oracle} (reqs : List (Nat × Bytes)) :
 
 /-- a PROCESS request at the head of a list merges into the request behind it -/
 theorem vrun_merge {o : Oracle} {op2 : Nat} {c1 c2 : Bytes} {rest : List (Nat × Bytes)} {s s' : St} {out out' : Bytes}
-    (hsafe : op2 = 0 ∨ c2 ≠ []) (hS : VStart s (c1 ++ c2))
+    (hsafe : op2 = 0 ∨ c2 ≠ [] ∨ NotBoundary s c1) (hS : VStart s (c1 ++ c2))
     (h : VRun o ((0, c1) :: (op2, c2) :: rest) s out s' out') : VRun o ((op2, c1 ++ c2) :: rest) s out s' out' := by
   cases h with
   | @cons _ _ _ _ _ _ _ e1 d1 v1 f1 i1 hd1 r1 =>
@@ -179,7 +195,7 @@ theorem vrun_merge {o : Oracle} {op2 : Nat} {c1 c2 : Bytes} {rest : List (Nat ×
     have t1 : vstep o 0 e1 = none := by rcases f1 with h | h; cases h; exact h
     cases r1 with
     | @cons _ _ _ _ _ _ _ e2 d2 v2 f2 i2 hd2 r2 =>
-      have hm := vmerge (o := o) (op2 := op2) (c2 := c2) hsafe n1 s out c1 e1 p1 t1 i1 hS
+      have hm := vmerge (o := o) (op2 := op2) (c2 := c2) n1 s out c1 e1 p1 t1 i1 hS hsafe
       exact .cons (vmerge_end hm v2 f2) f2 i2 hd2 r2
 
 def procs (cs : List Bytes) : List (Nat × Bytes) := cs.map (fun c => (0, c))
@@ -187,43 +203,48 @@ def procs (cs : List Bytes) : List (Nat × Bytes) := cs.map (fun c => (0, c))
 theorem vstart_mono {s : St} {a b : Bytes} (h : VStart s (a ++ b)) : VStart s a := by
   have hw := h.good.nowrap
   simp only [List.length_append] at hw
-  exact ⟨⟨h.good.init, h.good.nf, h.good.ncat, h.good.hint, h.good.bs, by show s.inputPos + a.length < two64; omega, rfl⟩, h.proc⟩
+  exact ⟨⟨h.good.init, h.good.nf, h.good.ncat, h.good.hint, h.good.bs, by show s.inputPos + a.length < two64; omega, rfl⟩, h.proc, h.pos⟩
 
 /-- **any number of PROCESS chunks in front of a request merge into it** -/
-theorem vrun_merge_all {o : Oracle} {op : Nat} {c : Bytes} {rest : List (Nat × Bytes)} (hsafe : op = 0 ∨ c ≠ []) :
+theorem vrun_merge_all {o : Oracle} {op : Nat} {c : Bytes} {rest : List (Nat × Bytes)} :
     ∀ (cs : List Bytes) (c1 : Bytes) {s s' : St} {out out' : Bytes}, VStart s (c1 ++ cs.flatten ++ c) →
+      (op = 0 ∨ c ≠ [] ∨ NotBoundary s (c1 ++ cs.flatten)) →
       VRun o ((0, c1) :: (procs cs ++ (op, c) :: rest)) s out s' out' → VRun o ((op, c1 ++ cs.flatten ++ c) :: rest) s out s' out' := by
   intro cs
   induction cs with
   | nil =>
-    intro c1 s s' out out' hS h
-    simp only [procs, List.map_nil, List.nil_append, List.flatten_nil, List.append_nil] at h hS ⊢
+    intro c1 s s' out out' hS hsafe h
+    simp only [procs, List.map_nil, List.nil_append, List.flatten_nil, List.append_nil] at h hS hsafe ⊢
     exact vrun_merge hsafe hS h
   | cons c2 cs ih =>
-    intro c1 s s' out out' hS h
+    intro c1 s s' out out' hS hsafe h
     have hS' : VStart s ((c1 ++ c2) ++ cs.flatten ++ c) := by
       simpa [List.flatten_cons, List.append_assoc] using hS
     have hS2 : VStart s (c1 ++ c2) := vstart_mono (vstart_mono hS')
     have h' : VRun o ((0, c1 ++ c2) :: (procs cs ++ (op, c) :: rest)) s out s' out' :=
       vrun_merge (Or.inl rfl) hS2 (by simpa [procs] using h)
-    have := ih (c1 ++ c2) hS' h'
+    have hsafe' : op = 0 ∨ c ≠ [] ∨ NotBoundary s ((c1 ++ c2) ++ cs.flatten) := by
+      simpa [List.flatten_cons, List.append_assoc] using hsafe
+    have := ih (c1 ++ c2) hS' hsafe' h'
     simpa [List.flatten_cons, List.append_assoc] using this
 
 /-- **input chunking is irrelevant on the ring-free machine**: two ways of cutting the same data into
 PROCESS chunks in front of the same kind of final request (PROCESS, FLUSH or FINISH), the final
 request being empty in neither or a PROCESS, end in the same state with the same bytes -/
 theorem vrun_chunking {o : Oracle} {op : Nat} {c c' : Bytes} {cs cs' : List Bytes} {s s1 s2 : St} {out out1 out2 : Bytes}
-    (hsafe : op = 0 ∨ c ≠ []) (hsafe' : op = 0 ∨ c' ≠ []) (hdata : cs.flatten ++ c = cs'.flatten ++ c')
+    (hsafe : op = 0 ∨ c ≠ [] ∨ NotBoundary s cs.flatten) (hsafe' : op = 0 ∨ c' ≠ [] ∨ NotBoundary s cs'.flatten)
+    (hdata : cs.flatten ++ c = cs'.flatten ++ c')
     (hS : VStart s (cs.flatten ++ c))
     (h1 : VRun o (procs cs ++ [(op, c)]) s out s1 out1) (h2 : VRun o (procs cs' ++ [(op, c')]) s out s2 out2) :
     s1 = s2 ∧ out1 = out2 := by
-  have key : ∀ (ds : List Bytes) (d : Bytes), (op = 0 ∨ d ≠ []) → VStart s (ds.flatten ++ d) → ∀ {t : St} {ot : Bytes},
+  have key : ∀ (ds : List Bytes) (d : Bytes), (op = 0 ∨ d ≠ [] ∨ NotBoundary s ds.flatten) → VStart s (ds.flatten ++ d) → ∀ {t : St} {ot : Bytes},
       VRun o (procs ds ++ [(op, d)]) s out t ot → VRun o [(op, ds.flatten ++ d)] s out t ot := by
     intro ds d hs hSd t ot h
     cases ds with
     | nil => simpa [procs] using h
     | cons d1 ds =>
-      have := vrun_merge_all (o := o) (rest := []) hs ds d1 (by simpa [List.flatten_cons, List.append_assoc] using hSd) (by simpa [procs] using h)
+      have := vrun_merge_all (o := o) (rest := []) ds d1 (by simpa [List.flatten_cons, List.append_assoc] using hSd)
+        (by simpa [List.flatten_cons] using hs) (by simpa [procs] using h)
       simpa [List.flatten_cons, List.append_assoc] using this
   have r1 := key cs c hsafe hS h1
   have r2 := key cs' c' hsafe' (hdata ▸ hS) h2
@@ -270,8 +291,8 @@ theorem vrun_chunking_empty_tail {o : Oracle} {op : Nat} {cs cs' : List Bytes} {
       | nil => simpa [procs] using h
       | cons e1 es =>
         have hfl : (e1 :: es ++ [d]).flatten = e1 ++ es.flatten ++ d := by simp [List.append_assoc]
-        have := vrun_merge_all (o := o) (op := 0) (c := d) (rest := [(op, [])]) (Or.inl rfl) es e1
-          (by rw [← hfl]; exact hSd) (by simpa [procs] using h)
+        have := vrun_merge_all (o := o) (op := 0) (c := d) (rest := [(op, [])]) es e1
+          (by rw [← hfl]; exact hSd) (Or.inl rfl) (by simpa [procs] using h)
         rw [hfl]; exact this
   have r1 := key cs hS h1
   have r2 := key cs' (hdata ▸ hS) h2
@@ -393,7 +414,9 @@ carry, stream state, the number of payload-encoder invocations — and equal byt
 (`ensureInitialized` in the conclusion is the identity: the end states are initialised.) -/
 theorem chunking_irrelevant {o : Oracle} {op : Nat} {c c' : Bytes} {cs cs' : List Bytes}
     {s t s' t' : St} {del delt del' delt' : Bytes}
-    (hsafe : op = 0 ∨ c ≠ []) (hsafe' : op = 0 ∨ c' ≠ []) (hdata : cs.flatten ++ c = cs'.flatten ++ c')
+    (hsafe : op = 0 ∨ c ≠ [] ∨ NotBoundary (ensureInitialized s) cs.flatten)
+    (hsafe' : op = 0 ∨ c' ≠ [] ∨ NotBoundary (ensureInitialized s) cs'.flatten)
+    (hdata : cs.flatten ++ c = cs'.flatten ++ c') (hI : IsFresh s ∨ Inv s)
     (hG : VGood (absR (ensureInitialized s) (cs.flatten ++ c) del)) (hproc : s.streamState = .processing)
     (hcore : core t = core s) (hout : delt ++ t.pending = del ++ s.pending)
     (h1 : DrivenC o (procs cs ++ [(op, c)]) s del s' del')
@@ -404,8 +427,8 @@ theorem chunking_irrelevant {o : Oracle} {op : Nat} {c c' : Bytes} {cs cs' : Lis
   have v2 := drivenC_vrun _ h2 hGt
   rw [core_ensure_congr hcore, hout] at v2
   have hS : VStart (er (core (ensureInitialized s))) (cs.flatten ++ c) :=
-    ⟨⟨hG.init, hG.nf, hG.ncat, hG.hint, hG.bs, hG.nowrap, rfl⟩, (ensure_state s).trans hproc⟩
-  exact vrun_chunking hsafe hsafe' hdata hS v1 v2
+    ⟨⟨hG.init, hG.nf, hG.ncat, hG.hint, hG.bs, hG.nowrap, rfl⟩, (ensure_state s).trans hproc, vpos_of_inv (inv_ensure hI)⟩
+  exact vrun_chunking (s := er (core (ensureInitialized s))) hsafe hsafe' hdata hS v1 v2
 
 /-- **chunking_irrelevant_empty_tail** (model, any output schedules): the adapters' shape — any two ways
 of cutting the same data into PROCESS chunks, both followed by the same EMPTY FLUSH / FINISH request,
@@ -413,7 +436,7 @@ from abstractly equal starts at a request boundary (fresh or initialised): equal
 ring buffer, equal bytes -/
 theorem chunking_irrelevant_empty_tail {o : Oracle} {op : Nat} {cs cs' : List Bytes}
     {s t s' t' : St} {del delt del' delt' : Bytes}
-    (hdata : cs.flatten = cs'.flatten)
+    (hdata : cs.flatten = cs'.flatten) (hI : IsFresh s ∨ Inv s)
     (hG : VGood (absR (ensureInitialized s) cs.flatten del)) (hproc : s.streamState = .processing)
     (hb : remainingInputBlockSize (ensureInitialized s) ≠ 0)
     (hcore : core t = core s) (hout : delt ++ t.pending = del ++ s.pending)
@@ -425,7 +448,7 @@ theorem chunking_irrelevant_empty_tail {o : Oracle} {op : Nat} {cs cs' : List By
   have v2 := drivenC_vrun _ h2 hGt
   rw [core_ensure_congr hcore, hout] at v2
   have hS : VStart (er (core (ensureInitialized s))) cs.flatten :=
-    ⟨⟨hG.init, hG.nf, hG.ncat, hG.hint, hG.bs, hG.nowrap, rfl⟩, (ensure_state s).trans hproc⟩
+    ⟨⟨hG.init, hG.nf, hG.ncat, hG.hint, hG.bs, hG.nowrap, rfl⟩, (ensure_state s).trans hproc, vpos_of_inv (inv_ensure hI)⟩
   exact vrun_chunking_empty_tail hdata hS hb v1 v2
 
 /-! ### the counter-example at a block boundary (model, fresh encoder, quality 2, size hint set) -/
@@ -469,6 +492,8 @@ def nvFresh : St := (setParameter (setParameter St.new 1 5).1 5 1000).1
 example : VGood (absR (ensureInitialized nvFresh) [1, 2, 3, 4] []) :=
   ⟨by decide, by decide, by decide, by decide, by decide, by decide, rfl⟩
 example : nvFresh.streamState = .processing ∧ remainingInputBlockSize (ensureInitialized nvFresh) ≠ 0 := by decide
+/-- two bytes into a fresh stream is not a block boundary -/
+example : NotBoundary (ensureInitialized nvFresh) [1, 2] := by unfold NotBoundary; decide
 example : Bnd 0 nvFresh [1, 2] := bnd_fresh (setParameter_fresh (setParameter_fresh ⟨{}, rfl⟩ 1 5) 5 1000) (by decide)
 /-- the two histories PROCESS [1, 2], FINISH [3, 4] and FINISH [1, 2, 3, 4] run to completion in the model -/
 def nvCheck (r : Option (St × Bytes × Bytes × Bool)) : Bool :=
